@@ -1567,7 +1567,7 @@ func runC10(ctx *vh.Ctx) error {
 		}
 	}
 	// kinds interleaved (4 api : 1 copies : 5 compose) so that a time budget cuts all of them evenly
-	n := ctx.N(6000, 120000)
+	n := ctx.N(5000, 120000)
 	for i := 0; i < n && ctx.TimeLeft(); i++ {
 		var err error
 		switch k := i % 10; {
